@@ -232,7 +232,16 @@ const (
 
 // c02Worker is the worker process' main loop.
 func c02Worker() {
-	debug.SetMaxStack(512 << 20)
+	// a small stack limit makes unbounded recursion cheap to detect; the CONFIRMATION run of a
+	// stack overflow uses Go's default limit (1 GB), so that deep-but-finite recursion on a
+	// large input is not reported
+	maxStack := 128 << 20
+	if s := os.Getenv("C02_MAXSTACK"); s != "" {
+		if n, err := strconv.Atoi(s); err == nil {
+			maxStack = n
+		}
+	}
+	debug.SetMaxStack(maxStack)
 	memLimit := int64(3) << 30
 	if s := os.Getenv("C02_RSS_LIMIT"); s != "" {
 		if n, err := strconv.ParseInt(s, 10, 64); err == nil {
@@ -339,10 +348,11 @@ func c02Self() string {
 	return os.Args[0]
 }
 
-func c02Start(dir string) (*c02Proc, error) {
+func c02Start(dir string, env ...string) (*c02Proc, error) {
 	os.MkdirAll(dir, 0o777)
 	cmd := exec.Command(c02Self(), "C02", "-replay", "worker", "-out", dir)
 	cmd.Env = append(os.Environ(), "GOMEMLIMIT=1GiB", "GOMAXPROCS=2", "GOTRACEBACK=single")
+	cmd.Env = append(cmd.Env, env...)
 	cmd.Dir = dir
 	tail := &c02Tail{}
 	cmd.Stderr = tail
@@ -394,8 +404,25 @@ func (p *c02Proc) ask(rq *c02Req, wall time.Duration) c02Outcome {
 		line, err := p.out.ReadBytes('\n')
 		ch <- res{line, err}
 	}()
-	select {
-	case r := <-ch:
+	var r res
+	lastCPU, lastT := p.cpu(), time.Now()
+wait:
+	for {
+		select {
+		case r = <-ch:
+			break wait
+		case <-time.After(wall / 6):
+			// A worker that is still burning CPU is not deadlocked (its own CPU watchdog will
+			// stop it); only a worker that made no CPU progress for a whole `wall` interval is.
+			if cur := p.cpu(); cur-lastCPU > 300*time.Millisecond {
+				lastCPU, lastT = cur, time.Now()
+			} else if time.Since(lastT) > wall {
+				p.kill()
+				return c02Outcome{Kind: "deadlock", Detail: fmt.Sprintf("no answer and no CPU progress for %v", wall)}
+			}
+		}
+	}
+	{
 		if r.err == nil {
 			var rs c02Resp
 			if json.Unmarshal(r.line, &rs) == nil && rs.ID == rq.ID {
@@ -424,10 +451,25 @@ func (p *c02Proc) ask(rq *c02Req, wall time.Duration) c02Outcome {
 			kind = "memory"
 		}
 		return c02Outcome{Kind: kind, Detail: fmt.Sprintf("exit %d: %s", code, c02FirstLines(se, 12))}
-	case <-time.After(wall):
-		p.kill()
-		return c02Outcome{Kind: "deadlock", Detail: fmt.Sprintf("no answer within %v wall clock and CPU watchdog did not fire", wall)}
 	}
+}
+
+// cpu: user+system time the worker process has used so far (from /proc/<pid>/stat)
+func (p *c02Proc) cpu() time.Duration {
+	b, err := os.ReadFile(fmt.Sprintf("/proc/%d/stat", p.cmd.Process.Pid))
+	if err != nil {
+		return 0
+	}
+	s := string(b)
+	if i := strings.LastIndex(s, ")"); i >= 0 {
+		f := strings.Fields(s[i+1:])
+		if len(f) > 13 {
+			u, _ := strconv.ParseInt(f[11], 10, 64)
+			k, _ := strconv.ParseInt(f[12], 10, 64)
+			return time.Duration(u+k) * 10 * time.Millisecond
+		}
+	}
+	return 0
 }
 
 func c02FirstLines(s string, n int) string {
@@ -507,13 +549,27 @@ func (pl *c02Pool) Ask(rq *c02Req) c02Outcome {
 		pl.put(p)
 		return o
 	}
-	// p is dead
-	p2 := pl.get()
+	// p is dead: confirm alone, in a fresh process, with twice the CPU budget and (for a stack
+	// overflow) Go's default 1 GB stack limit
+	pl.mu.Lock()
+	pl.started++
+	k := pl.started
+	pl.mu.Unlock()
+	var env []string
 	rq2 := *rq
 	rq2.CPUms *= 2
+	if o.Kind == "stack-overflow" {
+		env = append(env, "C02_MAXSTACK=1000000000")
+		rq2.CPUms = max(rq2.CPUms, 120000)
+		rq2.Runs = 1
+	}
+	p2, err := c02Start(fmt.Sprintf("%s/w%d", pl.dir, k), env...)
+	if err != nil {
+		return o
+	}
 	o2 := p2.ask(&rq2, 2*pl.wall)
 	if o2.Kind == "" {
-		pl.put(p2)
+		p2.kill()
 		o2.Kind = "unconfirmed:" + o.Kind
 		o2.Detail = o.Detail
 		return o2
